@@ -102,7 +102,7 @@ def retry_worker(job):
         name = o.name if n == 0 else '%s#%d' % (o.name, n + 1)
         if name not in names:
             continue
-        r = verify.discharge(_W, res.ex, o, c.unfold_depth, timeout_ms * 2, seed + 7, effort=2)
+        r = verify.discharge(_W, res.ex, o, c.unfold_depth, timeout_ms * 3, seed + 7, effort=2)
         r.update({'func': q, 'name': name, 'kind': o.kind})
         out.append(r)
     return out
@@ -217,9 +217,11 @@ def run_property(prop, tier, seed, procs):
     for r in results:
         if r['verdict'] != 'unsat' and meta[r['name']]['kind'] != 'canary' and r['name'][0] not in native_found:
             still.setdefault(r['name'][0], []).append(r['name'][1])
-    if still and sum(len(v) for v in still.values()) <= 4:
-        jobs2 = [(q, names, timeout_ms, seed) for q, names in still.items()]
-        with ctx.Pool(min(4, len(jobs2))) as pool:
+    if still and sum(len(v) for v in still.values()) <= 24:
+        # one job per undecided obligation (each re-executes its function): load spikes leave a handful of obligations open, and obligations that
+        # came after two open ones in a shard only had a short budget
+        jobs2 = [(q, [nm], timeout_ms, seed) for q, names in still.items() for nm in names]
+        with ctx.Pool(min(8, len(jobs2))) as pool:
             for rs in pool.map(retry_worker, jobs2, chunksize=1):
                 for r2 in rs:
                     key = (r2['func'], r2['name'])
